@@ -7,6 +7,7 @@ import (
 	"github.com/sajari/fuzzy"
 
 	"github.com/go-task/task/v3/errors"
+	tasksort "github.com/go-task/task/v3/internal/sort"
 	zz "github.com/go-task/task/v3/internal/zzsym"
 	"github.com/go-task/task/v3/taskfile/ast"
 )
@@ -250,4 +251,37 @@ func zzLiteralWitness(e *Executor, names []string) {
 			return
 		}
 	}
+}
+
+
+// ZZ_C15_TableOrder: with several matching wildcard patterns the first one in
+// Taskfile order wins, whatever task sorter is installed for listings.
+func ZZ_C15_TableOrder() {
+	patterns := []string{"deploy-*", "*-prod", "*", "de*-*", "b:*", "b:(x).*"}
+	k1 := zz.Choose("first_pattern", len(patterns))
+	k2 := zz.Choose("second_pattern", len(patterns))
+	zz.Assume(k1 != k2)
+	reqs := []string{"deploy-prod", "b:(x).js", "x-prod", "deploy-x"}
+	req := reqs[zz.Choose("request", len(reqs))]
+	tasks := ast.NewTasks()
+	tasks.Set(patterns[k1], &ast.Task{Task: patterns[k1]})
+	tasks.Set(patterns[k2], &ast.Task{Task: patterns[k2]})
+	e := &Executor{Taskfile: &ast.Taskfile{Tasks: tasks}}
+	sorters := []tasksort.Sorter{nil, tasksort.AlphaNumericWithRootTasksFirst, tasksort.AlphaNumeric, tasksort.NoSort}
+	e.TaskSorter = sorters[zz.Choose("sorter", len(sorters))]
+	got, err := e.GetTask(&Call{Task: req})
+	m1, _ := zzWild(patterns[k1], req)
+	m2, _ := zzWild(patterns[k2], req)
+	switch {
+	case m1:
+		zz.Assert(err == nil && got != nil && got.Task == patterns[k1], "first-matching-pattern-in-taskfile-order-wins")
+	case m2:
+		zz.Assert(err == nil && got != nil && got.Task == patterns[k2], "first-matching-pattern-in-taskfile-order-wins")
+	default:
+		zz.Assert(got == nil && err != nil, "unknown-name-is-200")
+	}
+	if zz.Twin() {
+		zz.Assert(false, "twin")
+	}
+	zz.Reach("end")
 }
